@@ -57,6 +57,35 @@ func c03Sweep(ctx *RunCtx, rep *Report, short bool, pr combination.PowerRankings
 			r := rand.New(rand.NewSource(ctx.Seed*7919 + int64(w)))
 			h := make([]string, 5)
 			p := make([]string, 5)
+			// memory and objects with a past: a table slice that held the other variant's table (and was
+			// used) before this variant's table was written over it in place - what encoding/json does when a
+			// document is decoded into a re-used value - and a game object that evaluated the same cards under
+			// the other variant before this variant's state was loaded into it
+			other := combination.PowerRankings(combination.CombinationPowerStandard)
+			if !shortTable {
+				other = combination.PowerRankings(combination.CombinationPowerShortDeck)
+			}
+			reused := append(combination.PowerRankings{}, other...)
+			combination.CalculatePower(reused, []string{"S6", "S8", "S9", "SJ", "SK"})
+			combination.CalculatePower(reused, []string{"S6", "H6", "D6", "S9", "H9"})
+			copy(reused, pr)
+			var gobj interface {
+				LoadState(*pokerface.GameState) error
+				CalculateCombinationPower([]string) *combination.PowerState
+			}
+			var stThis, stOther *pokerface.GameState
+			if permute {
+				mk := func(tbl combination.PowerRankings) *pokerface.GameState {
+					c := &Cfg{N: 2, Banks: []int64{100, 100}, SB: 5, BB: 10, Limit: "no", Hole: 2, Short: short}
+					o := c.Opts()
+					o.CombinationPowers = append(combination.PowerRankings{}, tbl...)
+					g := pokerface.NewPokerFace().NewGame(o)
+					g.Start()
+					return cloneGS(g.GetState())
+				}
+				stThis, stOther = mk(pr), mk(other)
+				gobj = pokerface.NewGameFromState(cloneGS(stOther))
+			}
 			for a := range work {
 				for b := a + 1; b < n; b++ {
 					for c := b + 1; c < n; c++ {
@@ -76,7 +105,12 @@ func c03Sweep(ctx *RunCtx, rep *Report, short bool, pr combination.PowerRankings
 								}
 								orders := 1
 								if permute {
-									orders = 2
+									orders = 3
+									// the game-object presentation for every flush and full house (the categories whose
+									// place differs between the shipped tables) and a sample of the rest
+									if rh.Cat == catFlush || rh.Cat == catFullHouse || (b+c+d+e)%61 == 0 {
+										orders = 4
+									}
 								}
 								for o := 0; o < orders; o++ {
 									copy(p, h)
@@ -85,7 +119,20 @@ func c03Sweep(ctx *RunCtx, rep *Report, short bool, pr combination.PowerRankings
 										r.Shuffle(5, func(i, j int) { p[i], p[j] = p[j], p[i] })
 										tbl = prCopy
 									}
-									ps := combination.CalculatePower(tbl, p)
+									if o == 2 {
+										tbl = reused
+										lrep.Inc("evaluations_with_rewritten_table_memory")
+									}
+									var ps *combination.PowerState
+									if o == 3 {
+										gobj.LoadState(stOther)
+										gobj.CalculateCombinationPower(p)
+										gobj.LoadState(stThis)
+										ps = gobj.CalculateCombinationPower(p)
+										lrep.Inc("evaluations_by_reloaded_game_object")
+									} else {
+										ps = combination.CalculatePower(tbl, p)
+									}
 									le++
 									cl.scores[ps.Score]++
 									if ps.Combination != catToCombination[rh.Cat] {
